@@ -264,6 +264,35 @@ class SPathSet:
         return self.lean_text
 
 
+class SPathList:
+    """a set / list of paths BUILT by the function (`List (List Nat)`): a heap object, so that `target = a if c else b;
+    target.add(p)` reaches the right one. A python set is read as the list of its elements in insertion order."""
+
+    def __init__(self, text):
+        self.text = text
+
+    def lean(self):
+        return self.text
+
+
+class SBoolList:
+    """a list of booleans of unknown length (`List Bool`)"""
+
+    def __init__(self, text):
+        self.text = text
+
+    def lean(self):
+        return self.text
+
+
+def boollist_lean(v):
+    if isinstance(v, SBoolList):
+        return v.text
+    if isinstance(v, ListObj) and all(k == "elem" and isinstance(x, (bool, SBool)) for k, x in v.segs):
+        return "[" + ", ".join(bool_lean(x) for _, x in v.segs) + "]"
+    raise Untranslatable("not a list of booleans: %r" % (v,))
+
+
 class _LoopExit(Exception):
     """(translation of one iteration of a `while`) the iteration is over: `again` tells whether the body ran"""
 
@@ -466,8 +495,11 @@ class Interp:
             return self.decide(("bool", v.lean()), ("bool", v.lean()), 2) == 0
         if isinstance(v, ReRes):
             return self.decide(("bool", v.lean_text), ("bool", v.lean_text), 2) == 0
-        if isinstance(v, (SColl, SPath)):
+        if isinstance(v, (SColl, SPath, SBoolList)):
             return self.decide(("nonempty", v.lean()), ("nonempty", v.lean()), 2) == 0
+        if isinstance(v, ListObj) and getattr(self, "list_truth_decision", False) and len(v.segs) == 1 and \
+                v.segs[0][0] == "sym":
+            return self.decide(("nonempty", v.segs[0][1]), ("nonempty", v.segs[0][1]), 2) == 0
         if isinstance(v, ListObj):
             self.normalize_list(v)
             guard = 0
@@ -632,6 +664,10 @@ class Interp:
         return isinstance(v, cls)
     # ---- attribute access
     def getattr_(self, v, name, frame):
+        if isinstance(v, SPathList) and name in ("update", "add"):
+            return ("plmethod", name, v)
+        if isinstance(v, SBoolList) and name == "append":
+            return ("blmethod", name, v)
         if isinstance(v, Obj):
             if name in v.attrs:
                 return v.attrs[name]
@@ -811,6 +847,19 @@ class Interp:
                     raise Untranslatable("dict.update with %r" % (a,))
             d.update(kwargs)
             return None
+        if isinstance(f, tuple) and f and f[0] == "plmethod":
+            (x,) = args
+            if f[1] == "update" and isinstance(x, SPathList):
+                f[2].text = "(%s ++ %s)" % (f[2].text, x.text)
+            elif f[1] == "add" and isinstance(x, SPath):
+                f[2].text = "(%s ++ [%s])" % (f[2].text, x.lean())
+            else:
+                raise Untranslatable("set.%s(%r)" % (f[1], x))
+            return None
+        if isinstance(f, tuple) and f and f[0] == "blmethod":
+            (x,) = args
+            f[2].text = "(%s ++ [%s])" % (f[2].text, bool_lean(x))
+            return None
         if isinstance(f, tuple) and f and f[0] == "listmethod":
             _, meth, lst = f
             if meth == "extend":
@@ -840,6 +889,11 @@ class Interp:
                 return SuperProxy(frame.owner, frame.self_obj)
             if f in (str, int, len):
                 return self.call_builtin(f, args, kwargs)
+            if f is enumerate and len(args) == 1 and not kwargs and isinstance(args[0], (ListObj, list)):
+                lst = args[0]
+                return ("enumerate", lst if isinstance(lst, ListObj) else ListObj([("elem", x) for x in lst]))
+            if f is set and not args and not kwargs and getattr(self, "sets_are_paths", False):
+                return SPathList("[]")
             if f in (tuple, list) and len(args) == 1 and isinstance(args[0], ListObj):
                 return ListObj(list(args[0].segs))
             if f is list and len(args) == 1 and isinstance(args[0], list):
@@ -909,6 +963,8 @@ class Interp:
             return total
         if f is isinstance:
             return self.isinstance_(args[0], args[1])
+        if f in (any, all) and len(args) == 1 and not kwargs:
+            return SBool("((%s).%s id)" % (boollist_lean(args[0]), "any" if f is any else "all"))
         if f is iter and len(args) == 1 and isinstance(args[0], (ListObj, list)):
             return args[0]
         if f is getattr and len(args) == 3 and isinstance(args[1], str):
@@ -1110,8 +1166,10 @@ class Interp:
                 self.exec_block(s.body, frame)
             else:
                 self.exec_block(s.orelse, frame)
+        elif isinstance(s, ast.For) and isinstance(self.eval_enumerate(s, frame), tuple):
+            self.exec_for_enumerate(s, frame, self._enum[1])
         elif isinstance(s, ast.For):
-            it = self.eval(s.iter, frame)
+            it = self._enum if self._enum is not None else self.eval(s.iter, frame)
             if isinstance(it, list):
                 it = ListObj([("elem", x) for x in it])
             if not isinstance(it, ListObj):
@@ -1172,6 +1230,71 @@ class Interp:
                     raise
         else:
             raise Untranslatable("statement %s" % type(s).__name__)
+    def eval_enumerate(self, s, frame):
+        """evaluates the iterable of a `for` once; `self._enum` holds it (a pair ("enumerate", list) or the value)"""
+        self._enum = self.eval(s.iter, frame)
+        return self._enum if isinstance(self._enum, tuple) and self._enum and self._enum[0] == "enumerate" else None
+
+    def exec_for_enumerate(self, s, frame, lst):
+        """`for i, x in enumerate(xs): body`. Over a list of known length: unrolled. Over a list variable of unknown
+        length: a fold. As for `while`, the effect of the whole loop on the variables it changes is the parameter
+        `for<k>` of the generated definition, and ONE iteration (from any state, for any index and element) is a
+        definition of its own, made by running the same function with `self.fold_body = k`."""
+        self.normalize_list(lst)
+        if s.orelse:
+            raise Untranslatable("for / else over enumerate")
+        if all(k == "elem" for k, _ in lst.segs):
+            for i, (_, x) in enumerate(lst.segs):
+                self.assign(s.target, ListObj([("elem", i), ("elem", x)]), frame)
+                self.exec_block(s.body, frame)
+            return
+        if len(lst.segs) != 1 or lst.segs[0][0] != "sym":
+            raise Untranslatable("enumerate over a partly known list")
+        src = lst.segs[0][1]
+        if any(isinstance(n, (ast.Break, ast.Continue, ast.Return, ast.Yield, ast.YieldFrom))
+               for st in s.body for n in ast.walk(st)):
+            raise Untranslatable("break / continue / return / yield in a loop over a list of unknown length")
+        spec = getattr(self, "folds", None)
+        if spec is None:
+            raise Untranslatable("loop with a state over a list of unknown length (no description given)")
+        idx = self.fold_count = getattr(self, "fold_count", -1) + 1
+        if idx >= len(spec):
+            raise Untranslatable("more such loops than described")
+        if not (isinstance(s.target, ast.Tuple) and len(s.target.elts) == 2 and
+                all(isinstance(e, ast.Name) for e in s.target.elts)):
+            raise Untranslatable("target of a loop over enumerate")
+        iname, xname = (e.id for e in s.target.elts)
+
+        def lean_of(v, kind):
+            if kind == "pathlist" and isinstance(v, SPathList):
+                return v.text
+            if kind == "boollist":
+                return boollist_lean(v)
+            raise Untranslatable("loop variable of kind %s holds %r" % (kind, v))
+
+        def state_lean():
+            parts = [lean_of(frame.locals[n], k) for n, k in spec[idx]]
+            return "(%s)" % ", ".join(parts)
+
+        def fresh(text, kind):
+            return SPathList(text) if kind == "pathlist" else SBoolList(text)
+        if getattr(self, "fold_body", None) == idx:
+            self.o.choose(("loopstart",), 1)
+            self.known = {}
+            for n, kind in spec[idx]:
+                frame.locals[n] = fresh(n, kind)
+            frame.locals[iname] = SInt("var", "i")
+            frame.locals[xname] = Obj(None, lean="child", lay="child.lay")
+            self.exec_block(s.body, frame)
+            raise _LoopExit(True, state_lean())
+        res = "(for%d %s %s)" % (idx, state_lean(), src)
+        n = len(spec[idx])
+        proj = {1: [""], 2: [".1", ".2"], 3: [".1", ".2.1", ".2.2"]}.get(n)
+        if proj is None:
+            raise Untranslatable("a loop with more than three state variables")
+        for (name, kind), pj in zip(spec[idx], proj):
+            frame.locals[name] = fresh("%s%s" % (res, pj), kind)
+
     def exec_while(self, s, frame):
         """`while cond: body` over values of unknown size. The loop is not unrolled: its effect on the variables it
         assigns is the function `loop` the generated definition takes as a parameter (`self.loops[i]` describes the
@@ -2814,4 +2937,163 @@ def translate_marker(N):
                     "(Option (Option Str × List Nat))", build_tree(paths, 0, 1), None, len(paths)))
     except Untranslatable as e:
         out.append(("mark_node_loop0", None, "(Option (Option Str × List Nat))", None, str(e), 0))
+    return out
+
+
+# ---------------------------------------------------------------------------------------------
+# MatchingPropagator._propagate and _status_from_parent (naming.py)
+# ---------------------------------------------------------------------------------------------
+
+PROPAGATE_FOLDS = [[("paths_ok", "pathlist"), ("paths_ko", "pathlist"), ("children_status", "boollist")]]
+
+
+def translate_propagate(N, T):
+    """[(lean name, params, result type, body | None, error | None, paths)], for both default operations `D`:
+    * `sfp`: `_status_from_parent(path, matching, other)`; its recursive call is the parameter `sfp`;
+    * `propagate_<D>_<Class>`: `_propagate(node, matching, other, path)` on an instance of each concrete class; the
+      recursive calls are the parameter `rec`, `_status_from_parent` the parameter `sfp`, and for the operations the
+      effect of the loop over the operands (a list of unknown length) the parameter `for0`;
+    * `propagate_<D>_for0`: ONE iteration of that loop, from any state, for any index and operand."""
+    out = []
+    RES = "(Bool × List (List Nat) × List (List Nat))"
+
+    def propagator(it, default_or):
+        me = Obj(N.MatchingPropagator, lean="@self")
+        init = N.MatchingPropagator.__dict__["__init__"]
+        it.call_function(init, [me], {"default_operation": T.OrOperation if default_or else T.AndOperation},
+                         owner=N.MatchingPropagator, self_obj=me)
+
+        def rec_propagate(interp, obj, args, kwargs):
+            if kwargs or len(args) != 4:
+                raise Untranslatable("_propagate called with unusual arguments")
+            child, m, o, p = args
+            if not (isinstance(m, SPathSet) and m.lean() == "m" and isinstance(o, SPathSet) and o.lean() == "o"):
+                raise Untranslatable("_propagate does not hand matching / other down unchanged")
+            if not isinstance(child, Obj) or child.lean is None or not isinstance(p, SPath):
+                raise Untranslatable("_propagate on something that is not a child at a path")
+            r = "(rec %s %s)" % (p.lean(), child.lean)
+            return ListObj([("elem", SBool(r + ".1")), ("elem", SPathList(r + ".2.1")), ("elem", SPathList(r + ".2.2"))])
+
+        def rec_sfp(interp, obj, args, kwargs):
+            if kwargs or len(args) != 3:
+                raise Untranslatable("_status_from_parent called with unusual arguments")
+            p, m, o = args
+            if not (isinstance(m, SPathSet) and m.lean() == "m" and isinstance(o, SPathSet) and o.lean() == "o"):
+                raise Untranslatable("_status_from_parent does not get matching / other unchanged")
+            if not isinstance(p, SPath):
+                raise Untranslatable("_status_from_parent on something that is not a path")
+            return SBool("(sfp %s)" % p.lean())
+        it.rec_hooks["_propagate"] = rec_propagate
+        it.rec_hooks["_status_from_parent"] = rec_sfp
+        it.sets_are_paths = True
+        it.list_truth_decision = True
+        it.folds = PROPAGATE_FOLDS
+        return me
+
+    # ---- _status_from_parent, one level
+    def run_sfp(oracle):
+        it = Interp(oracle)
+        me = propagator(it, True)
+        fn = N.MatchingPropagator.__dict__["_status_from_parent"]
+        me.attrs["_status_from_parent"] = ("rechook", "_status_from_parent", me)
+        try:
+            res = it.call_function(fn, [me, SPath("path"), SPathSet("m"), SPathSet("o")], {},
+                                   owner=N.MatchingPropagator, self_obj=me)
+        except PyRaise as e:
+            return emit_raise(e)
+        if not isinstance(res, (bool, SBool)):
+            raise Untranslatable("_status_from_parent does not return a boolean")
+        return "Except.ok %s" % bool_lean(res)
+    try:
+        paths = explore(run_sfp)
+        out.append(("sfp", ["(sfp : List Nat → Bool)", "(m o : List (List Nat))", "(path : List Nat)"], "Bool",
+                    build_tree(paths, 0, 1), None, len(paths)))
+    except Untranslatable as e:
+        out.append(("sfp", None, "Bool", None, str(e), 0))
+
+    def result_lean(res):
+        if not isinstance(res, ListObj) or len(res.segs) != 3:
+            raise Untranslatable("_propagate does not return a triple")
+        b, ok, ko = (x for _, x in res.segs)
+        if not isinstance(b, (bool, SBool)) or not isinstance(ok, SPathList) or not isinstance(ko, SPathList):
+            raise Untranslatable("_propagate returns %r" % ((b, ok, ko),))
+        return "(%s, %s, %s)" % (bool_lean(b), ok.text, ko.text)
+    base = ["(rec : List Nat → Tree → %s)" % RES, "(sfp : List Nat → Bool)", "(m o : List (List Nat))",
+            "(path : List Nat)"]
+    STATE = "(List (List Nat) × List (List Nat) × List Bool)"
+    for default_or, dname in ((True, "or"), (False, "and")):
+        for cname in PRINT_CLASSES:
+            holder = {}
+            is_op = cname.endswith("Operation")
+
+            def run(oracle, cname=cname, default_or=default_or, holder=holder):
+                it = Interp(oracle)
+                me = propagator(it, default_or)
+                me.attrs["_propagate"] = ("rechook", "_propagate", me)
+                me.attrs["_status_from_parent"] = ("rechook", "_status_from_parent", me)
+                node, params = class_inputs(T, cname)
+                holder["p"] = params
+                fn = N.MatchingPropagator.__dict__["_propagate"]
+                try:
+                    res = it.call_function(fn, [me, node, SPathSet("m"), SPathSet("o"), SPath("path")], {},
+                                           owner=N.MatchingPropagator, self_obj=me)
+                except PyRaise as e:
+                    return emit_raise(e)
+                return "Except.ok %s" % result_lean(res)
+            name = "propagate_%s_%s" % (dname, cname)
+            try:
+                paths = explore(run)
+                params = base + holder["p"]
+                if is_op:
+                    params = ["(for0 : %s → List Tree → %s)" % (STATE, STATE)] + params
+                out.append((name, params, RES, build_tree(paths, 0, 1), None, len(paths)))
+            except Untranslatable as e:
+                out.append((name, None, RES, None, str(e), 0))
+
+        # one iteration of the loop over the operands (the class of the operation does not matter: checked)
+        bodies = {}
+        for cname in [c for c in PRINT_CLASSES if c.endswith("Operation")]:
+            def run_body(oracle, cname=cname, default_or=default_or):
+                it = Interp(oracle)
+                me = propagator(it, default_or)
+                it.fold_body = 0
+                me.attrs["_propagate"] = ("rechook", "_propagate", me)
+                me.attrs["_status_from_parent"] = ("rechook", "_status_from_parent", me)
+                node, params = class_inputs(T, cname)
+                fn = N.MatchingPropagator.__dict__["_propagate"]
+                try:
+                    it.call_function(fn, [me, node, SPathSet("m"), SPathSet("o"), SPath("path")], {},
+                                     owner=N.MatchingPropagator, self_obj=me)
+                except _LoopExit as e:
+                    return ("loop", "Except.ok %s" % e.values)
+                except PyRaise as e:
+                    return ("loop", emit_raise(e)) if any(d[0] == "loopstart" for d, _, _ in oracle.trace) \
+                        else ("before", None)
+                return ("before", None)
+            try:
+                raw = explore(run_body)
+                cut_paths = {}
+                for trace, res in raw:
+                    if res[0] != "loop":
+                        continue
+                    cut = next(i for i, (d, _, _) in enumerate(trace) if d[0] == "loopstart")
+                    key = tuple(trace[cut + 1:])
+                    if key in cut_paths and cut_paths[key] != res[1]:
+                        raise Untranslatable("one iteration of the loop depends on what was computed before the loop")
+                    cut_paths[key] = res[1]
+                if not cut_paths:
+                    raise Untranslatable("no loop over the operands any more")
+                bodies[cname] = build_tree([(list(k), v) for k, v in cut_paths.items()], 0, 1)
+            except Untranslatable as e:
+                bodies[cname] = ("error", str(e))
+        name = "propagate_%s_for0" % dname
+        vals = list(bodies.values())
+        params = ["(rec : List Nat → Tree → %s)" % RES, "(m o : List (List Nat))", "(path : List Nat)",
+                  "(paths_ok paths_ko : List (List Nat))", "(children_status : List Bool)", "(i : Nat)", "(child : Tree)"]
+        if any(isinstance(v, tuple) for v in vals):
+            out.append((name, None, STATE, None, next(v[1] for v in vals if isinstance(v, tuple)), 0))
+        elif any(v != vals[0] for v in vals):
+            out.append((name, None, STATE, None, "the loop over the operands differs between the operation classes", 0))
+        else:
+            out.append((name, params, STATE, vals[0], None, 1))
     return out
